@@ -342,10 +342,12 @@ Fixpoint sexec (n : nat) (vs : list string) (fn : string) (s : stmt) (fr : frame
           match find_fun funs f with
           | None => Some (EX (err "undefined function"), g)
           | Some d =>
-              match sexec n' (fun_vars d) f (fbody d) (sbind_params (fun_vars d) (fparams d) avs (sfresh (fun_vars d)), []) g with
-              | Fuel => None
-              | Res c _ g' => Some (call_result c, g')
-              end
+              if enough_args (fparams d) avs then
+                match sexec n' (fun_vars d) f (fbody d) (sbind_params (fun_vars d) (fparams d) avs (sfresh (fun_vars d)), []) g with
+                | Fuel => None
+                | Res c _ g' => Some (call_result c, g')
+                end
+              else Some (EX (VErr "too few arguments"), g)
           end
       | CClo id oid cap =>
           (* LambdaExpression.Call: a fresh context, the parameters, then the captured values; the
@@ -353,11 +355,13 @@ Fixpoint sexec (n : nat) (vs : list string) (fn : string) (s : stmt) (fr : frame
           match nth_error clos id with
           | None => Some (EX (VErr "no such closure"), g)
           | Some cd =>
-              match sexec n' (clo_vars cd) (clo_name oid) (cbody cd)
+              if enough_args (cparams cd) avs then
+                match sexec n' (clo_vars cd) (clo_name oid) (cbody cd)
                       (sbind_captured (clo_vars cd) cap (sbind_params (clo_vars cd) (cparams cd) avs (sfresh (clo_vars cd))), []) g with
-              | Fuel => None
-              | Res c _ g' => Some (call_result c, g')
-              end
+                | Fuel => None
+                | Res c _ g' => Some (call_result c, g')
+                end
+              else Some (EX (VErr "too few arguments"), g)
           end
       end in
     let ev := seval callf funs clos vs fn in
